@@ -37,26 +37,30 @@ def decode_obligations(ck, r, tag, nbytes, bytevars, replay_len=None):
         return
     acc = [p for p in rets if p['obs']['err'].get('nil')]
     rej = [p for p in rets if not p['obs']['err'].get('nil')]
-    ck.ground(tag + '.shape', 'length 32: one accepting and one rejecting path', len(acc) == 1 and len(rej) == 1)
-    if len(acc) != 1 or len(rej) != 1:
+    ck.ground(tag + '.shape', 'length 32: accepting and rejecting paths exist', len(acc) >= 1 and len(rej) >= 1)
+    if not acc or not rej:
+        cex_values(ck, 'decode:shape', 'Decode of 32 bytes has no %s path' % ('accepting' if not acc else 'rejecting'), STEER + [0, N, N + 1, 2**256 - 1])
         return
-    ck.ground(tag + '.rejerr', 'rejection error is errParamScalarTooBig', errlabel(rej[0]['obs']['err']) == ERR['big'])
+    ck.ground(tag + '.rejerr', 'rejection error is errParamScalarTooBig', all(errlabel(p['obs']['err']) == ERR['big'] for p in rej))
     low = BVLower(r)
-    roots = acc[0]['pc'] + rej[0]['pc'] + acc[0]['obs']['S']['f']
+    roots = [c_ for p in rets for c_ in p['pc']] + [x for p in acc for x in p['obs']['S']['f']]
     low.emit(roots)
     mu = MontUF(low, 's')
     bn, _ = ensure_vars(r, low, bytevars, 8)
     inval = concat_bytes_be(bn)
     pre = low.all() + '\n(define-fun inval () (_ BitVec 256) %s)' % inval
     nn = bvconst256(N)
-    goals = [
-        (tag + '.accept-iff', 'accepting path taken only if OS2IP(in) < n', asserts(acc[0]['pc']) + '\n(assert (not (bvult inval %s)))' % nn),
-        (tag + '.reject-iff', 'rejecting path taken only if OS2IP(in) >= n', asserts(rej[0]['pc']) + '\n(assert (bvult inval %s))' % nn),
-    ]
-    S = acc[0]['obs']['S']['f']
-    for i in range(4):
-        goals.append((tag + '.value%d' % i, 'accepted: receiver limb %d = limb %d of ToMontgomery(OS2IP(in))' % (i, i),
-                      asserts(acc[0]['pc']) + '\n(assert (not (= n%d ((_ extract %d %d) (%s inval)))))' % (S[i], 64 * i + 63, 64 * i, mu.to)))
+    goals = []
+    for p in acc:
+        goals.append(('%s.accept-iff.%d' % (tag, p['id']), 'accepting path taken only if OS2IP(in) < n', asserts(p['pc']) + '\n(assert (not (bvult inval %s)))' % nn))
+        S = p['obs']['S']['f']
+        for i in range(4):
+            goals.append(('%s.value%d.%d' % (tag, i, p['id']), 'accepted: receiver limb %d = limb %d of ToMontgomery(OS2IP(in))' % (i, i),
+                          asserts(p['pc']) + '\n(assert (not (= n%d ((_ extract %d %d) (%s inval)))))' % (S[i], 64 * i + 63, 64 * i, mu.to)))
+    for p in rej:
+        goals.append(('%s.reject-iff.%d' % (tag, p['id']), 'rejecting path taken only if OS2IP(in) >= n', asserts(p['pc']) + '\n(assert (bvult inval %s))' % nn))
+    # contracts needed when the code distinguishes cases on the reduced value (To(0) = 0 etc.)
+    pre += '\n' + mu.ground()
     ans = ck.prove_batch(pre, goals, timeout=60)
     ck.prove(tag + '.reach-accept', 'accepting path reachable', pre + '\n' + asserts(acc[0]['pc']), expect='sat', timeout=30)
     ck.prove(tag + '.reach-reject', 'rejecting path reachable', pre + '\n' + asserts(rej[0]['pc']), expect='sat', timeout=30)
@@ -64,14 +68,15 @@ def decode_obligations(ck, r, tag, nbytes, bytevars, replay_len=None):
         if a == 'sat':
             m, _ = smt.get_model(pre + '\n' + g, bn)
             cases = []
-            if m:
-                cases.append({'kind': 'scalar-decode', 'a': ''.join('%02x' % m[b] for b in bn), 'b': '%064x' % 5})
-            for v in [N - 1, N, N + 1, 2**256 - 1, 0, 1]:
-                cases.append({'kind': 'scalar-decode', 'a': '%064x' % v, 'b': '%064x' % 5})
+            for pre_v in (5, N - 3):
+                if m:
+                    cases.append({'kind': 'scalar-decode', 'a': ''.join('%02x' % m[b] for b in bn), 'b': '%064x' % pre_v})
+                for v in [N - 1, N, N + 1, 2**256 - 1, 0, 1]:
+                    cases.append({'kind': 'scalar-decode', 'a': '%064x' % v, 'b': '%064x' % pre_v})
             path = ck.save_replay({'property': 'C07', 'cases': cases, 'obligation': oid})
             ok, out = core.go_test(path)
             if not ok and 'MISMATCH' in out:
-                ck.violation('decode:' + oid.split('.')[-1], '%s fails: %s' % (desc, [l.strip() for l in out.splitlines() if 'MISMATCH' in l][:1]), path)
+                ck.violation('decode:' + oid.split('.')[2], '%s fails: %s' % (desc, [l.strip() for l in out.splitlines() if 'MISMATCH' in l][:1]), path)
             else:
                 ck.inconclusive.append('%s: counterexample did not reproduce' % oid)
             break
